@@ -89,8 +89,8 @@ func spliceTimeBytes(hasPTS bool, pts gots.PTS) []byte {
 		bytes[4] = byte(pts)             // 1111 1111
 		return bytes
 	}
-	// return 0111 1110
-	return []byte{0x7E} // only reserved bits are set
+	// return 0111 1111: time_specified_flag 0 followed by 7 reserved bits
+	return []byte{0x7F} // only reserved bits are set
 }
 
 // Data returns the bytes of this splice command.
